@@ -15,6 +15,8 @@ VERUS_UNITS = {
                     props=['C03', 'C05', 'C04', 'C02', 'C12']),
     'U-ENC-V': dict(module='contracts.verus.yaml_encoding', min_verified=15, timeout=600,
                     props=['C07', 'C02', 'C04', 'C05', 'C12', 'C01']),
+    'U-MAIN-V': dict(module='contracts.verus.cli_main', min_verified=5, timeout=600,
+                     props=['C14', 'C03', 'C15', 'C13']),
     'U-CAP-V': dict(module='contracts.verus.input_capture', min_verified=18, timeout=600,
                     props=['C09', 'C02', 'C04', 'C05', 'C12']),
 }
@@ -58,7 +60,7 @@ HARNESSES = [
       bounds='handle in any valid state over a stream <= 4 B; all 3^4 trial outcomes; each trial moves the cursor by any amount', timeout=900, min_covers=1,
       fns=['detect::detect_format', 'input::Handle::borrow_mut', 'input::GuardedCaptureReader::rewind_and_borrow_mut', 'input::CaptureReader::rewind'],
       assumes=['trial parsers stubbed: they inspect and move the capture cursor instead of reading through Box<dyn Read>']),
-    H('U-PIPE', 'pipecheck', 'every_write_method_diverts_broken_pipe', 'complete', ['C16'],
+    H('U-PIPE', 'pipecheck', 'every_write_method_diverts_broken_pipe', 'complete', ['C16', 'C15'],
       bounds='5 Write methods x 6 inner results', timeout=300, min_covers=2,
       fns=['pipecheck::Writer::write', 'pipecheck::Writer::flush', 'pipecheck::Writer::write_all', 'pipecheck::Writer::write_fmt',
            'pipecheck::Writer::write_vectored', 'pipecheck::check_for_broken_pipe'],
@@ -303,7 +305,7 @@ HARNESSES = [
       fns=['yaml::Output::transcode_value'], timeout=600, assumes=['serde_yaml::to_writer stubbed: writes a marker through the writer or fails']),
     H('U-YML', 'yaml', 'yaml_output_value_framing_separator_write_fails', 'complete', ['C12'], bounds='writer fails inside the --- line',
       fns=['yaml::Output::transcode_value'], timeout=600, assumes=['serde_yaml::to_writer stubbed']),
-    H('U-LIB', 'lib', 'translator_flush_forwards_to_writer', 'complete', ['C12', 'C16'], bounds='4 output formats x 4 writer flush results',
+    H('U-LIB', 'lib', 'translator_flush_forwards_to_writer', 'complete', ['C12', 'C16', 'C15'], bounds='4 output formats x 4 writer flush results',
       fns=['Translator::flush', 'Dispatcher::flush', 'json::Output::flush', 'msgpack::Output::flush', 'toml::Output::flush', 'yaml::Output::flush'], timeout=300, min_covers=2),
     H('U-EXT', 'main', 'extension_table', 'complete', ['C14'], bounds='every extension byte string of length 0..=7, present or absent',
       fns=['main::InputPath::extension_format'], timeout=900, min_covers=3,
@@ -338,12 +340,12 @@ PROPERTIES = {
     'C03': dict(
         explanation='Document cutting is an ordered partition: msgpack::transcode hands the output rest[..n] with n the exact size of the first value (Verus, unbounded; '
                     'loop wiring by Kani with the proved contract substituted), consecutive, non-empty, covering the input; ChunkReader::take_to_offset / trim_to_offset '
-                    'return / keep exactly stream[start..o] / stream[o..delivered]. Verus (U-CHK-V) proves Chunker::next on the verbatim code for ALL event histories against an assumed libyaml '
+                    'return / keep exactly stream[start..o] / stream[o..delivered]. CLI: U-MAIN-V proves one translate call per input path, in order, on the one translator created before the loop. Verus (U-CHK-V) proves Chunker::next on the verbatim code for ALL event histories against an assumed libyaml '
                     'event contract: the k-th Some(Ok(doc)) is exactly stream[start_k..end_k] of the k-th document of the event history (no gap byte, no neighbour byte, kind of its first content event), '
                     'emitted exactly once and in order, None only after every completed document was emitted; documents of a monotone history are ordered disjoint intervals (theorem).',
         assumptions=['libyaml event contract (assumed, stated as the stand-in Parser::next_event contract in U-CHK-V): one event per call, marks monotone, within the bytes delivered and on UTF-8 boundaries, '
                      'bytes reach libyaml only through ChunkReader::read, DOCUMENT-END is followed by DOCUMENT-START or STREAM-END', 'termination of the event loop in Chunker::next rests on libyaml reaching a document boundary (not proved)'],
-        not_covered=['writeln!/--- framing in json::Output / yaml::Output (real serializers are out of CBMC\'s reach; pinned by the golden-file tests)', 'Translator keeping one output', 'the CLI loop']),
+        not_covered=['writeln!/--- framing in json::Output / yaml::Output beyond the framing harnesses (real serializers)', 'Translator keeping one output (a struct field)']),
     'C04': dict(
         explanation='Panic-freedom / termination of every function under contract: Verus checks bounds, overflow and decreases for the size calculator (all inputs); every Kani '
                     'harness checks all panics, unwraps, index, overflow and pointer obligations of the real code under its stated precondition, incl. stream.rs '
@@ -411,10 +413,28 @@ PROPERTIES = {
         not_covered=['bytes accepted by a failing writer are a prefix of the fault-free output (serializer crates)', 'Parser::next_event re-surfacing the stashed error (calls libyaml)',
                      'complete documents delivered before a reader fault (needs the parsers)']),
     'C14': dict(
-        explanation='Extension table only: extension_format == table(ascii_lowercase(ext)) for every extension byte string of length 0..=7 that Path::extension may return; Stdin => None; '
-                    'format names table of try_parse_format.',
-        assumptions=['std::path::Path::extension returns the last extension (stubbed by its std contract)'],
-        not_covered=['precedence -f > extension > detection (inside main())', 'stdin-once', 'mmap / FIFO / stdin agreement with the library']),
+        explanation='Extension table: extension_format == table(ascii_lowercase(ext)) for every extension byte string of length 0..=7 that Path::extension may return; Stdin => None; '
+                    'format names table of try_parse_format (Kani, U-EXT). Precedence and stdin-once: Verus (U-MAIN-V) proves on the verbatim main() that the i-th translate call receives '
+                    'from == (-f if given, else extension_format(path_i), else None = detection), resolved afresh for every input, one call per path in iterator order, and that at most one '
+                    'of the translated inputs is standard input (a second `-` is refused before anything is read).',
+        assumptions=['std::path::Path::extension returns the last extension (stubbed by its std contract)',
+                     'stand-ins of U-MAIN-V: Cli::parse_args, InputPath::open (Stdin path <=> Input::Stdin), the InputPaths iterator (lawful), xt::Translator (ghost call log), stdio, process::exit'],
+        not_covered=['mmap / FIFO / stdin agreement with the library (InputPath::open, File / Mmap readers)', 'Cli::parse_args (lexopt)', 'InputPath::from and Iterator for InputPaths (two-line bodies; unverified)']),
+    'C13': dict(
+        explanation='Three clauses of C13 are decided by the Verus contract on the verbatim main() (U-MAIN-V): (1) the translator is never created when stdout is a terminal and the target is MessagePack '
+                    '(precondition-contract on Translator::new against is_terminal / format_is_unsafe_for_terminal); (2) main() returns normally (status 0) only after every path the iterator produced '
+                    'was translated with result Ok and flushed (loop invariant at loop exit); every failure leaves through process::exit; (3) main() itself exits only with status 1 or 2.',
+        assumptions=['process::exit(code) terminates with that status; help / version handling and the usage-error classification live in Cli::parse_args (lexopt; stand-in)',
+                     'stand-ins of U-MAIN-V (see C14)'],
+        not_covered=['which command lines are invalid (Cli::parse_args)', 'that status 2 is used exactly for invalid command lines and 1 for the rest (both constants appear in the verified text but no contract ties them to the cause)',
+                     'message texts on stderr, nothing on stdout for usage errors', 'pseudo-terminal detection itself (std)']),
+    'C15': dict(
+        explanation='Verus (U-MAIN-V) proves on the verbatim main() the invariant "nothing is pending in the translator at a loop head": every finished input has been flushed with result Ok before the next input '
+                    'is opened, so an error exit (process::exit runs no destructors) happens only while the CURRENT input is in progress and cannot lose output of a finished one; at normal return nothing is unflushed. '
+                    'Kani: Translator::flush returns the result of the writer\'s flush for all four targets (U-LIB); pipecheck::Writer::flush forwards to the inner flush exactly once (U-PIPE).',
+        assumptions=['BufWriter::flush / StdoutLock write everything that was buffered (std)', 'the serializers hand complete documents to the writer before translate_* returns (serializer crates; framing harnesses cover JSON / YAML)',
+                     'stand-ins of U-MAIN-V (see C14)'],
+        not_covered=['the bytes themselves (only that flush is called, and its result honoured, after every input)', 'partial output of the failing input']),
     'C16': dict(
         explanation='Contract on the stdout wrapper pipecheck::Writer: every Write method forwards to the same inner method once; '
                     'a BrokenPipe result diverts to exit_for_broken_pipe and never returns; every other result is returned unchanged.',
@@ -467,10 +487,7 @@ def attr_inserts_for(modules):
     return out
 
 NOT_APPLICABLE = {
-    'C13': 'process-level observable (exit status, stdout/stderr discipline, tty) decided in main()/Cli::parse_args via env::args_os and process::exit; '
-           'Verus accepts none of it and Kani has no model of process exit, the environment or a terminal; no contract within reach carries the property',
-    'C15': 'the guarantee is the content of a BufWriter<StdoutLock> at process::exit in main() (flush after each input, destructors skipped); '
-           'no function under contract carries it (Translator::flush forwarding is checked under C12)',
+    # (C13 and C15 were not-applicable until main() was brought under a Verus contract, DESIGN 12.12)
 }
 
 
